@@ -27,8 +27,8 @@ func init() {
 			"a complete descriptor followed by zero payload bytes may be accepted or rejected (RFC silent); if accepted the fields must match",
 		},
 		Strata: []fw.Stratum{
-			{Name: "payloader-short-runs", N: fw.Const(8000, 800000), Run: c11Short},
-			{Name: "payloader-long-runs", N: fw.Const(8, 200), Run: c11Long},
+			{Name: "payloader-short-runs", N: fw.Const(40000, 1000000), Run: c11Short},
+			{Name: "payloader-long-runs", N: fw.Const(16, 300), Run: c11Long},
 			{Name: "descriptor-flag-space", N: fw.Const(8192, 8192), Run: c11Dec, Exhaustive: true},
 		},
 	})
